@@ -328,8 +328,8 @@ def run_check(mod, tier, seed, replay=None):
             known_hits[matched['id']] = known_hits.get(matched['id'], 0) + 1
             continue
         if fails:
-            failures.append({'case': c, 'impl': io, 'model': mo, 'oracle': fails})
-        else:
+            failures.append({'case': c, 'impl': io, 'model': mo, 'oracle': fails, 'model_disagrees': bool(disagree)})
+        if disagree:
             disagreements.append({'case': c, 'impl': io, 'model': mo})
     wall = time.time() - t0
     # 4. decide
@@ -339,7 +339,7 @@ def run_check(mod, tier, seed, replay=None):
         if e.get('status') == 'known' and (known_hits.get(e['id']) or e.get('always_report')):
             print('KNOWN-FINDING: property=%s %s: %s' % (pid, e['id'], e['what']))
     if failures or disagreements or broken:
-        violations = len(failures) + len(disagreements) + (1 if broken and not failures and not disagreements else 0)
+        violations = len({jhash(f['case']) for f in failures + disagreements}) + (1 if broken and not failures and not disagreements else 0)
         if failures or disagreements:
             pool = failures or disagreements
             best = min(pool, key=lambda f: len(json.dumps(f['case'], default=str)))
@@ -394,12 +394,12 @@ def shrink(mod, fail, model_ok, budget=200):
     def bad(c):
         try:
             io = canon(mod.run_impl(c))
+            mo = canon(mod.decode(run_model(mod.ID, [mod.encode(c)])[0], c)) if model_ok else None
             if hasattr(mod, 'oracle') and list(mod.oracle(c, io)):
-                return {'case': c, 'impl': io, 'model': None, 'oracle': list(mod.oracle(c, io))}
-            if model_ok:
-                mo = canon(mod.decode(run_model(mod.ID, [mod.encode(c)])[0], c))
-                if mo != io:
-                    return {'case': c, 'impl': io, 'model': mo}
+                return {'case': c, 'impl': io, 'model': mo, 'oracle': list(mod.oracle(c, io)),
+                        'model_disagrees': model_ok and mo != io}
+            if model_ok and mo != io:
+                return {'case': c, 'impl': io, 'model': mo}
         except Exception:
             return None
         return None
